@@ -19,6 +19,15 @@ rendering of its own fields, surplus fields, non-canonical number spelling) is a
 descriptor error is allowed there too.  For strict canonical descriptors without repetition the set is
 the single pinned outcome (theorem C14_allowed_tight).
 
+create_transport as a FUNCTION of (descriptor, defaults) (theorem C14_history_independent): before anything
+else calls the implementation, forked children of this process (= fresh process state) run a fixed sample
+of calls alone, in sequences (x,x / x,y,x / valid,rejected,rejected / rejected,rejected,valid / the same
+descriptor with other defaults / mixed with the parsers' match_interface and parse_parameter_strings) and
+in 2-3 threads under harness/dsched.py with every line of the parser methods and of create_transport a
+scheduling point; each outcome must equal the outcome of the same call made alone.  The sampled calls
+are also ordinary cases (membership in the allowed set) and are repeated at the end of this long-lived
+process.
+
 Property oracle (independent of the model):
   totality   - nothing but QMI_TransportDescriptorException may leave create_transport /
                parse_parameter_strings;
@@ -169,6 +178,9 @@ def impl_create(s, d):
         if q.default is not inspect.Parameter.empty:
             dfl[q.name] = q.default
     return ("ok", cls, args, t._is_open, dfl)
+
+
+LIVE_IFACES = None     # interfaces for which the tree under test has a parser object (set by prepare_tables)
 
 
 def real_parser(T, iface):
@@ -1004,6 +1016,225 @@ def replay_obj(c, o, extra=None):
     return r
 
 
+# ----------------------------------------------------------------------------------------------
+# create_transport as a FUNCTION of (descriptor, defaults): histories and interleavings
+# (theorem C14_history_independent: in the model the k-th outcome of a history depends on the k-th
+# arguments only; here the implementation is checked against that)
+# ----------------------------------------------------------------------------------------------
+HIST_VALID = [("tcp:192.168.1.10:5025", None), ("udp:h:5000", None), ("serial:/dev/ttyS0:baudrate=9600", None),
+              ("usbtmc:vendorid=0x0699:productid=0x3000:serialnr=C1", None), ("vxi11:h", None),
+              ("tcp:[::1]:80:connect_timeout=2.5", None), ("serial:COM3", {"baudrate": 115200, "parity": "E"}),
+              ("TCP:example.com:1", {"connect_timeout": 3.0})]
+HIST_REJECTED = [("tcp", None), ("udp", None), ("gpib", None), ("", None), (":", None), ("serial:", None), ("vxi11", None),
+                 ("tcp", {"host": "h", "port": 5025}), ("foo:bar:1", None), ("tcp:h", None), ("usbtmc:vendorid=1", None),
+                 ("tcp:h:5:foo=1", None), ("tcp:h:abc", None), ("serial:COM1:baudrate=x", None),
+                 ("tcp:h:1:connect_timeout=1=2", None), ("tcp:-bad:5", None), ("tcp:h:0", None), ("udp:h:35999", None),
+                 ("gpib:1", None), ("usbtmc:serialnr=S", None)]
+HIST_SAME_S = [[("tcp:h", {"port": 5}), ("tcp:h", {"port": 7}), ("tcp:h", None)],
+               [("usbtmc:serialnr=S", {"vendorid": 1, "productid": 2}), ("usbtmc:serialnr=S", {"vendorid": 3, "productid": 4})],
+               [("serial:COM1", {"baudrate": 9600}), ("serial:COM1", {"baudrate": 19200, "bytesize": 7})],
+               [("tcp", {"host": "h", "port": 5025}), ("tcp", None)]]
+LINE_FUNCS = ["_parse_parts", "_parse_interface", "match_interface", "parse_parameter_strings",
+              "_parse_positional_parameters", "_parse_keyword_parameters"]
+
+
+def mkcall(op, s, d=None, iface=None):
+    return {"op": op, "s": s, "d": d, "iface": iface}
+
+
+def callkey(c):
+    return json.dumps([c["op"], c["iface"], [ord(ch) for ch in c["s"]],
+                       None if c["d"] is None else sorted(c["d"].items(), key=repr)], default=repr)
+
+
+def sig(o):
+    """what a caller can observe of one call (constructor defaults of the class left out)"""
+    return repr(tuple(o[:4]))
+
+
+def do_call(c):
+    if c["op"] == "create":
+        return impl_create(c["s"], c["d"])
+    if c["op"] == "parse":
+        return impl_parse(("real", c["iface"]), c["s"], c["d"])
+    T = impl()
+    from qmi.core.exceptions import QMI_TransportDescriptorException
+    try:
+        return ("match", bool(real_parser(T, c["iface"]).match_interface(c["s"])))
+    except QMI_TransportDescriptorException:
+        return ("err",)
+    except BaseException as e:  # noqa
+        return _esc(e)
+
+
+def scenario_sequence(s, calls):
+    return [sig(do_call(c)) for c in calls]
+
+
+def scenario_threads(s, thread_calls):
+    import logging
+    import threading as real_threading
+    import dsched
+    logging.disable(logging.CRITICAL)
+    T = impl()
+    P = T.TransportDescriptorParser
+    dsched.enable_line_yields([getattr(P, f) for f in LINE_FUNCS if hasattr(P, f)] + [T.create_transport])
+    out = [[None] * len(cs) for cs in thread_calls]
+
+    def work(i):
+        for j, c in enumerate(thread_calls[i]):
+            out[i][j] = sig(do_call(c))
+    ths = [real_threading.Thread(target=work, args=(i,)) for i in range(len(thread_calls))]
+    for th in ths:
+        th.start()
+    for th in ths:
+        th.join()
+    return out
+
+
+def history_sample(ck):
+    rng = __import__("random").Random(ck.seed * 7919 + 14)
+    creates = [mkcall("create", s, d) for s, d in HIST_VALID + HIST_REJECTED]
+    for _ in range(10):
+        c = gen_wellformed(rng)
+        if c is not None:
+            creates.append(mkcall("create", c["s"], c["d"]))
+            m = mutate(rng, c["s"], rng.choice(MUTATIONS))
+            if m is not None and len(m) < 200:
+                creates.append(mkcall("create", m, c["d"]))
+    same = [[mkcall("create", s, d) for s, d in grp] for grp in HIST_SAME_S]
+    T = impl()
+    live = {p.interface for p in vars(T).values() if isinstance(p, T.TransportDescriptorParser)}
+    others = []
+    for s, d in HIST_VALID[:6] + HIST_REJECTED[:8] + [("gpib:1:board=2", None)]:
+        first = s.lstrip(":").split(":")[0].lower()
+        for iface in {first if first in SPEC else "tcp", "tcp"}:
+            if iface in live:
+                others.append(mkcall("match", s, None, iface))
+                others.append(mkcall("parse", s, d, iface))
+    return creates, same, others
+
+
+def history_plan(ck):
+    """-> (distinct calls, sequences [(kind, [calls])], thread jobs)"""
+    rng = __import__("random").Random(ck.seed * 104729 + 14)
+    creates, same, others = history_sample(ck)
+    mult = 1 if ck.tier == "quick" else 12
+    valid = [mkcall("create", s, d) for s, d in HIST_VALID]
+    rejected = [mkcall("create", s, d) for s, d in HIST_REJECTED]
+    seqs = [("x,x", [x, x]) for x in creates + others]
+    for grp in same:
+        for a in grp:
+            for b in grp:
+                if a is not b:
+                    seqs.append(("same-descriptor-other-defaults", [a, b]))
+                    seqs.append(("same-descriptor-other-defaults", [a, b, a]))
+    for _ in range(60 * mult):
+        x, y = rng.choice(creates), rng.choice(creates)
+        seqs.append(("x,y,x", [x, y, x]))
+    for r in rejected:
+        seqs.append(("valid,rejected,rejected", [rng.choice(valid), r, r]))
+        seqs.append(("rejected,rejected,valid", [r, r, rng.choice(valid)]))
+    for _ in range(40 * mult):
+        seqs.append(("mixed", [rng.choice(creates + others + others) for _ in range(rng.randint(3, 6))]))
+    threads = []
+    for i in range(100 * mult):
+        n = rng.choice([2, 2, 3])
+        pool = valid + rejected[:10] + [c for grp in same for c in grp]
+        tc = [[rng.choice(pool) for _ in range(rng.choice([1, 1, 2]))] for _ in range(n)]
+        kw = dict(strategy="random", seed=ck.seed * 4099 + i, switch_prob=rng.choice([0.3, 0.5, 0.7])) if i % 3 else \
+            dict(strategy="pct", seed=ck.seed * 4099 + i)
+        threads.append((tc, kw))
+    distinct = {}
+    for _, cs in seqs:
+        for c in cs:
+            distinct.setdefault(callkey(c), c)
+    for tc, _ in threads:
+        for cs in tc:
+            for c in cs:
+                distinct.setdefault(callkey(c), c)
+    return distinct, seqs, threads, creates + [c for grp in same for c in grp], others
+
+
+def history_run(ck):
+    """Runs everything in forked children of THIS process, which has imported the transport module but not
+    called it yet, so every child starts from the state a fresh process has."""
+    import dsched
+    distinct, seqs, threads, creates, others = history_plan(ck)
+    keys = list(distinct)
+    jobs = [(scenario_sequence, ([distinct[k]],), dict(strategy="fifo")) for k in keys]
+    jobs += [(scenario_sequence, (cs,), dict(strategy="fifo")) for _, cs in seqs]
+    jobs += [(scenario_threads, (tc,), kw) for tc, kw in threads]
+    res = dsched.run_forked(jobs, nproc=common.NPROC, wall_timeout=30.0)
+    return {"distinct": distinct, "keys": keys, "seqs": seqs, "threads": threads, "res": res,
+            "creates": creates, "others": others}
+
+
+def history_check(ck, H):
+    res, keys = H["res"], H["keys"]
+    alone = {}
+    for k, r in zip(keys, res[:len(keys)]):
+        if r.get("status") != "ok":
+            ck.report("tie:history-harness:%s" % r.get("status"), "a single call in a forked child did not finish: %s"
+                      % str(r.get("trace") or r)[:300], {"history": [H["distinct"][k]]}, found_input=False)
+            return {}
+        alone[k] = r["obs"][0]
+    H["alone"] = alone
+    off = len(keys)
+    for (kind, cs), r in zip(H["seqs"], res[off:off + len(H["seqs"])]):
+        ck.note_case(("history", kind, [callkey(c) for c in cs]), True)
+        ck.count("history:" + kind)
+        if r.get("status") != "ok":
+            ck.report("history:%s:%s" % (kind, r.get("status")), "a call sequence did not finish: %s" % str(r.get("trace") or r)[:300],
+                      {"history": cs})
+            continue
+        for j, (c, got) in enumerate(zip(cs, r["obs"])):
+            if got != alone[callkey(c)]:
+                cs2 = shrink_history(cs, j, alone, got)
+                ck.report("history:%s:%s" % (kind, c["op"]),
+                          "create_transport/parser is not a function of its arguments: call #%d of the sequence %s gave %s, "
+                          "the same call made alone in a fresh process gives %s" % (
+                              len(cs2), [(x["op"], x["iface"], x["s"], x["d"]) for x in cs2], got[:300], alone[callkey(c)][:300]),
+                          {"history": cs2, "outcome_in_history": got, "outcome_alone": alone[callkey(c)]})
+                break
+    off += len(H["seqs"])
+    for (tc, kw), r in zip(H["threads"], res[off:]):
+        ck.note_case(("threads", [[callkey(c) for c in cs] for cs in tc], tuple(r.get("choices") or ())), True)
+        ck.count("threads:%d:%s" % (len(tc), r.get("status")))
+        rep = {"threads": tc, "schedule": r.get("choices"), "sched_kw": kw}
+        if r.get("status") != "ok":
+            ck.report("threads:%s" % r.get("status"), "concurrent create_transport calls did not finish (%s): %s" % (
+                r.get("status"), str(r.get("trace") or r.get("info"))[:300]), rep)
+            continue
+        bad = [(i, j) for i, cs in enumerate(tc) for j, c in enumerate(cs) if r["obs"][i][j] != alone[callkey(c)]]
+        if bad:
+            i, j = bad[0]
+            c = tc[i][j]
+            ck.report("threads:outcome-differs",
+                      "concurrent create_transport calls interfere: thread %d calling create_transport(%r, %r) got %s; alone it "
+                      "gives %s (other threads: %s; schedule recorded)" % (
+                          i, c["s"], c["d"], r["obs"][i][j][:300], alone[callkey(c)][:300],
+                          [[(x["s"], x["d"]) for x in cs] for k, cs in enumerate(tc) if k != i]),
+                      dict(rep, outcomes=r["obs"], alone=[[alone[callkey(c)] for c in cs] for cs in tc]))
+    return alone
+
+
+def shrink_history(cs, j, alone, got):
+    """drop earlier calls one at a time while call j keeps giving the same (wrong) outcome"""
+    import dsched
+    cur = list(cs[:j + 1])
+    i = 0
+    while i < len(cur) - 1 and len(cur) > 1:
+        cand = cur[:i] + cur[i + 1:]
+        r = dsched.run_forked([(scenario_sequence, (cand,), dict(strategy="fifo"))], nproc=1)[0]
+        if r.get("status") == "ok" and r["obs"][-1] == got:
+            cur = cand
+        else:
+            i += 1
+    return cur
+
+
+
 def prepare_tables(ck):
     """Regenerate coq/gen/C14Tables.v from the live view of the tree under test.  Returns obligations or None."""
     global LIVE_IFACES
@@ -1040,6 +1271,14 @@ def unicode_assumptions(ifaces):
 def run(ck):
     ck.theory_dir = THEORY
     T = impl()
+    # first of all (nothing has called the implementation yet): histories and interleavings in forked children
+    try:
+        _ = t_c14_tables   # (the live interface list is not known yet; history_sample falls back to SPEC)
+        H = history_run(ck)
+    except Exception as e:  # noqa
+        H = None
+        ck.report("tie:history-harness", "the history / interleaving bucket could not run: %s: %s" % (type(e).__name__, e),
+                  {"broken": "harness c14.history_run"}, found_input=False)
     obligations = prepare_tables(ck)
     ck.trusted = [
         "Coq 8.16.1 kernel (vm_compute for generated table obligations and for evaluating the model on cases)",
@@ -1048,6 +1287,8 @@ def run(ck):
         "translator harness/translators/t_c14_tables.py: tables, constructor signatures and responder port read "
         "from the live objects of the tree under test; parser/class per interface found by probing the real "
         "create_transport with recording parsers and constructors; fail-closed where the model cannot express them",
+        "harness/dsched.py deterministic scheduler (line-level scheduling points inside the parser and create_transport) "
+        "and forked children for the history / interleaving buckets",
         "python harness c14.py: trip-wire stubs for socket/serial/vxi11/usb as seen from qmi.core.transport*, "
         "gethostbyname('localhost') stubbed to 127.0.0.1, reading back private attributes of the created transport",
         "CPython int()/int(.,16)/float(), QMI's _is_valid_hostname/_is_valid_ipaddress (glibc inet_pton): "
@@ -1061,6 +1302,8 @@ def run(ck):
         "name / the COM prefix (checked on every run over all code points)",
     ]
     if obligations is None:
+        if H:
+            history_check(ck, H)
         # broken tie: spend the budget on the implementation-side oracle only
         ck.proof_ok = False
         ck.proof_log += "translator failed\n"
@@ -1101,11 +1344,25 @@ def run(ck):
         dict(zip(ifaces, [c == "true" for c in cons])) if len(cons) == len(ifaces) else "could not be evaluated"
 
     cases = gen_cases(ck)
+    alone = history_check(ck, H) if H else {}
+    if H:
+        # the sampled calls are also ordinary cases: their outcome must lie in the allowed set, and here - late in
+        # this long-lived process - equal what a fresh process gives
+        for hc in H["creates"] + [x for x in H["others"] if x["op"] == "parse"]:
+            c = {"mode": hc["op"], "s": hc["s"], "d": hc["d"], "kind": "history-sample",
+                 "iface": hc["iface"] or hc["s"].lstrip(":").split(":")[0].lower()[:8], "hkey": callkey(hc)}
+            if hc["op"] == "parse":
+                c["table"] = ("real", hc["iface"])
+            cases.append(c)
     obs = []
     for c in cases:
         o = run_impl(c)
         obs.append(o)
         c["obs"] = o
+        if c.get("hkey") in alone and sig(o) != alone[c["hkey"]]:
+            ck.report("history:main-run:%s" % c["mode"],
+                      "after the calls of this run, %s(%r, %r) gives %s; in a fresh process it gives %s" % (
+                          c["mode"], c["s"], c["d"], sig(o)[:300], alone[c["hkey"]][:300]), replay_obj(c, o))
         nontrivial = o[0] in ("ok", "dict") or c["kind"] in ("near", "wf")
         ck.note_case((c["mode"], c.get("table"), c["s"], defaults_items(c["d"])), nontrivial)
         ck.count("kind:" + c["kind"])
@@ -1186,14 +1443,53 @@ def run(ck):
     return ck.finish("grammar-generated descriptors over all six interfaces (every keyword subset, random order, "
                      "decimal/hex ints, bracketed hosts, defaults), single-mutation near misses, arbitrary strings, "
                      "parse-only runs through the six real tables and through fresh TransportDescriptorParser objects "
-                     "over random well-formed tables, USBTMC resource round trips; non-trivial = accepted, or "
+                     "over random well-formed tables, USBTMC resource round trips; call histories and thread interleavings "
+                     "of a fixed sample compared with the same calls made alone in fresh processes; non-trivial = accepted, or "
                      "well-formed/near-miss by construction; distinct by content hash",
                      "theorems are about Model.create/parse for ALL strings, defaults and well-formed tables; totality "
                      "of the real code is established only by the differential run")
 
 
+def replay_history(c0):
+    import dsched
+    impl()
+    if "history" in c0:
+        cs = c0["history"]
+        jobs = [(scenario_sequence, ([c],), dict(strategy="fifo")) for c in cs] + [(scenario_sequence, (cs,), dict(strategy="fifo"))]
+        res = dsched.run_forked(jobs, nproc=8)
+        alone = [r["obs"][0] if r.get("status") == "ok" else repr(r)[:200] for r in res[:-1]]
+        seq = res[-1]["obs"] if res[-1].get("status") == "ok" else [repr(res[-1])[:300]] * len(cs)
+        bad = 0
+        for c, a, g in zip(cs, alone, seq):
+            print("%s(%r, %r)%s\n   in the sequence: %s\n   alone, fresh  : %s%s" % (
+                c["op"], c["s"], c["d"], " via parser %s" % c["iface"] if c["iface"] else "", g, a,
+                "" if a == g else "   <-- DIFFERS"))
+            bad += a != g
+        print("oracle:", "the outcome of a call depends on the calls made before it" if bad else "every call gives what it gives alone")
+        return 1 if bad else 0
+    tc = c0["threads"]
+    flat = [c for cs in tc for c in cs]
+    jobs = [(scenario_sequence, ([c],), dict(strategy="fifo")) for c in flat]
+    jobs.append((scenario_threads, (tc,), dict(strategy="replay", schedule=list(c0.get("schedule") or []))))
+    res = dsched.run_forked(jobs, nproc=8)
+    alone = iter([r["obs"][0] if r.get("status") == "ok" else repr(r)[:200] for r in res[:-1]])
+    got = res[-1].get("obs") if res[-1].get("status") == "ok" else None
+    bad = 0
+    for i, cs in enumerate(tc):
+        for j, c in enumerate(cs):
+            a = next(alone)
+            g = got[i][j] if got else repr(res[-1])[:300]
+            print("thread %d: create_transport(%r, %r)\n   under the recorded schedule: %s\n   alone, fresh               : %s%s" % (
+                i, c["s"], c["d"], g, a, "" if a == g else "   <-- DIFFERS"))
+            bad += a != g
+    print("oracle:", "concurrent calls interfere" if bad else "every call gives what it gives alone")
+    return 1 if bad else 0
+
+
 def replay(rep):
     c0 = rep["case"]
+    if "history" in c0 or "threads" in c0:
+        return replay_history(c0)
     if "descriptor_codepoints" not in c0:
         print("replay file carries no descriptor (broken tie / proof obligation):", rep.get("what"))
         return 1
